@@ -93,6 +93,10 @@ func c04Expect(c c04Case) (validHS, loggedIn bool) {
 				hash = *a.RawHash
 			}
 			loggedIn = bcrypt.CompareHashAndPassword([]byte(hash), pwField) == nil
+			if a.RawHash == nil {
+				// a well-formed stored hash: the property's words - exactly the account's current password
+				loggedIn = string(pwField) == string(ref.Obfuscate([]byte(a.Password)))
+			}
 			if len(pwField) > 72 {
 				// beyond bcrypt's input limit (outside the quantifier; kept as a boundary probe): bcrypt itself
 				// only reads 72 bytes, the property says "that account's current password" - exactly that one
@@ -330,6 +334,12 @@ func c04Cases(thorough bool) []c04Case {
 					cs = append(cs, c04Case{DB: db, HS: valid, FirstTyp: ref.TLogin, Login: l, RawPw: []byte(world.HashPw(a.Password))})
 					// un-obfuscated password bytes
 					cs = append(cs, c04Case{DB: db, HS: valid, FirstTyp: ref.TLogin, Login: l, RawPw: []byte(a.Password + " ")[:len(a.Password)]})
+					// the password, a zero byte, the password again (bcrypt reads its key cyclically with a
+					// terminating zero: P and P 00 P produce the same hash) - not the account's password
+					if a.RawHash == nil && len(a.Password) < 30 {
+						wire := ref.Obfuscate([]byte(a.Password))
+						cs = append(cs, c04Case{DB: db, HS: valid, FirstTyp: ref.TLogin, Login: l, RawPw: append(append(append([]byte(nil), wire...), 0), wire...)})
+					}
 				}
 			}
 		}
